@@ -270,8 +270,6 @@ pub fn run_frags(args: &Args, sink: &mut Sink, rng: &mut Rng, rt: &tokio::runtim
             Err(false) => "frags:err",
             Err(true) => "frags:panic",
         });
-        // PLANT (temporary sanity test): record a wrong implementation output for the first case
-        let out = if std::env::var("C11_PLANT").map(|v| v == "frags" || v == "both").unwrap_or(false) && tag == 0 { Ok(vec![10, 9, 5]) } else { out };
         s.push(inp, coq::outcome(&out.as_ref().map(|v| coq::nlist(v.iter())).map_err(|e| *e)), human);
     }
     sink.add(s);
